@@ -1,5 +1,5 @@
 import slayer
-from props.scommon import scen, preempt_scenario
+from props.scommon import scen, preempt_scenario, pp_exact_fit_scenario
 """C08 - valid configurations run to the end; shipped schedulers decide admissibly"""
 from layer_s import ALGOS
 
@@ -13,6 +13,8 @@ def scenarios(ctx, n):
     s = ctx.seed * 7919
     for i in range(n // 5):
         yield preempt_scenario(s + i)
+    for i in range(n // 4):
+        yield pp_exact_fit_scenario(s + i)
 
 
 def simulator_runs(ctx, n):
@@ -61,7 +63,7 @@ def simulator_runs(ctx, n):
 def run(ctx):
     n = 150 if ctx.quick() else 1500
     slayer.run_scenarios_s(ctx, "C08", scenarios(ctx, n), classify=classify)
-    simulator_runs(ctx, 60 if ctx.quick() else 600)
+    simulator_runs(ctx, 40 if ctx.quick() else 600)
 
 
 def replay(ctx, rep):
